@@ -170,8 +170,21 @@ mod guard {
                             bits.resize(len, 0);
                             fill_content(&mut rng, calls, &mut d0);
                             fill_content(&mut rng, calls / 6, &mut s0);
-                            for b in bits.iter_mut() {
-                                *b = (rng.next() & 1) as u8;
+                            // packed-bit operand kinds as in C11: dense random, all zero, all one, sparse, and
+                            // "last word zero" / "first word zero" (whole words the kernels may skip)
+                            let bkind = calls % 6;
+                            let pad = (64 - len % 64) % 64;
+                            for (k, b) in bits.iter_mut().enumerate() {
+                                let word = (k + pad) / 64;
+                                let nwords = (len + pad) / 64;
+                                *b = match bkind {
+                                    1 => 0,
+                                    2 => 1,
+                                    3 => (rng.below(48) == 0) as u8,
+                                    4 => (word + 1 != nwords) as u8 & (rng.next() & 1) as u8,
+                                    5 => (word != 0) as u8 & (rng.next() & 1) as u8,
+                                    _ => (rng.next() & 1) as u8,
+                                };
                             }
                             reference(&gf, op, &d0, &s0, &bits, c, &mut want);
                             let words = pack_bits(&bits);
